@@ -10,18 +10,22 @@ import (
 // against one node. Everything is drawn up front; only the interleaving is left
 // to the Go scheduler (and is therefore repeated, see Procs).
 type Case struct {
-	G          int   `json:"g"`
-	Docs       int   `json:"docs"`       // shared documents (written by every goroutine)
-	Chain      int   `json:"chain"`      // commits per shared document produced on a second node and merged in during the run
-	Branchable bool  `json:"branchable"` // collection-level commits: merges go through the schema-root queue
-	P2P        bool  `json:"p2p"`        // node has a libp2p peer; replicator changes are part of the call mix
-	SharedTxn  bool  `json:"shared_txn"` // goroutines flagged in TxnUser issue all their calls through one NewConcurrentTxn
-	TxnUser    []bool `json:"txn_user"`
-	Disjoint   bool  `json:"disjoint"`  // shared-transaction users write only documents no other goroutine writes
-	Warm       bool  `json:"warm"`      // one sequential request of every shape before the goroutines start
-	NoSchema   bool  `json:"no_schema"` // AddSchema calls replaced by reads (schema reload swaps the request types)
-	Procs      []int `json:"procs"`     // GOMAXPROCS of each repetition
-	Lists      [][]Op `json:"lists"`
+	G            int    `json:"g"`
+	Docs         int    `json:"docs"`       // shared documents (written by every goroutine)
+	Chain        int    `json:"chain"`      // commits per shared document produced on a second node and merged in during the run
+	Branchable   bool   `json:"branchable"` // collection-level commits: merges go through the schema-root queue
+	P2P          bool   `json:"p2p"`        // node has a libp2p peer; replicator changes are part of the call mix
+	SharedTxn    bool   `json:"shared_txn"` // goroutines flagged in TxnUser issue all their calls through one NewConcurrentTxn
+	TxnUser      []bool `json:"txn_user"`
+	Disjoint     bool   `json:"disjoint"`       // shared-transaction users write only documents no other goroutine writes
+	Warm         bool   `json:"warm"`           // one sequential request of every shape before the goroutines start
+	NoSchema     bool   `json:"no_schema"`      // AddSchema calls replaced by reads (schema reload swaps the request types)
+	NoRedelete   bool   `json:"no_redelete"`    // collection-API delete never targets a document the model holds deleted
+	NoIndexMerge bool   `json:"no_index_merge"` // no CreateIndex/DropIndex in a case that has incoming merges
+	NoIndex      bool   `json:"no_index"`       // no CreateIndex/DropIndex at all (an index created while documents are written misses them)
+	NoRepPush    bool   `json:"no_rep_push"`    // the replicator is never deleted and its peer never stops (pushes do not fail)
+	Procs        []int  `json:"procs"`          // GOMAXPROCS of each repetition
+	Lists        [][]Op `json:"lists"`
 }
 
 // Op is one call. D selects a shared document (modulo Docs) or one of the
@@ -54,6 +58,7 @@ const (
 	kMerge       = "merge"
 	kSetRep      = "rep+"
 	kDelRep      = "rep-"
+	kSinkDown    = "sink-down" // the replicator peer stops (once per case)
 )
 
 var tags = []string{"a", "b", "c"}
@@ -70,7 +75,9 @@ func kindsFor(c Case, txnUser bool) []weighted {
 		{kReadOwn, 4}, {kRead, 7},
 	}
 	if !txnUser {
-		ws = append(ws, weighted{kCreateIndex, 4}, weighted{kDropIndex, 3})
+		if !(c.NoIndexMerge && c.Chain > 0) && !c.NoIndex {
+			ws = append(ws, weighted{kCreateIndex, 4}, weighted{kDropIndex, 3})
+		}
 		if !c.NoSchema {
 			ws = append(ws, weighted{kAddSchema, 2})
 		}
@@ -78,7 +85,10 @@ func kindsFor(c Case, txnUser bool) []weighted {
 			ws = append(ws, weighted{kMerge, 12})
 		}
 		if c.P2P {
-			ws = append(ws, weighted{kSetRep, 4}, weighted{kDelRep, 3})
+			ws = append(ws, weighted{kSetRep, 4})
+			if !c.NoRepPush {
+				ws = append(ws, weighted{kDelRep, 3}, weighted{kSinkDown, 1})
+			}
 		}
 	}
 	return ws
@@ -108,12 +118,21 @@ func drawCase(t *rapid.T, maxOps int) Case {
 	}
 	c.Branchable = rapid.IntRange(0, 5).Draw(t, "branchable") == 0
 	c.P2P = rapid.IntRange(0, 5).Draw(t, "p2p") == 0
+	if c.P2P {
+		// the replicator peer runs the same merge path in the same process and logs its failures
+		// through the same logger: with harness-published merges the two could not be told apart
+		c.Chain = 0
+	}
 	c.SharedTxn = rapid.IntRange(0, 9).Draw(t, "sharedTxn") < 4
 	// "search past a defect": half of the cases avoid the triggers of the listed findings
 	avoid := rapid.Bool().Draw(t, "avoidKnown")
 	c.Warm = avoid && rec.IsKnown(sigLazyTypes)
-	c.NoSchema = avoid && rec.IsKnown(sigLazyTypes)
-	if avoid && c.SharedTxn && rec.IsKnown(sigStoreBypass) {
+	c.NoSchema = avoid && (rec.IsKnown(sigLazyTypes) || rec.IsKnown(sigParserSwap))
+	c.NoRedelete = avoid && rec.IsKnown(sigRedeletePanic)
+	c.NoIndexMerge = avoid && rec.IsKnown(sigMergeCorruptedIndex)
+	c.NoIndex = avoid && (rec.IsKnown(sigIndexWriteSkew) || rec.IsKnown(sigIndexStaleDoc))
+	c.NoRepPush = avoid && rec.IsKnown(sigPushHeadsPanic)
+	if avoid && c.SharedTxn && (rec.IsKnown(sigStoreBypass) || rec.IsKnown(sigTxnCallbacks)) {
 		// the wrapper's mutex is bypassed on every store access: without it no shared transaction
 		c.SharedTxn = false
 	}
